@@ -10,7 +10,7 @@ from sim.core import Violation
 from .c10_meta import TOL
 
 ID = "C10"
-SHRINK_LISTS = ("chunks", "chunks_a", "chunks_b", "chunks_c")
+SHRINK_LISTS = ("chunks", "chunks_a", "chunks_b", "chunks_c", "cuts")
 SHRINK_MIN = {"n": 1, "nchans": 1, "k": 1}
 FAMILIES = ["constant", "onebit", "smallint", "gauss", "gauss-bigmean", "heavy", "one-constant", "step", "step", "tiny", "huge"]
 CAL = bool(os.environ.get("VERIF_C10_CALIBRATE"))
@@ -76,7 +76,37 @@ def generate(rng, tier) -> dict:
             # the merged accumulator is then fed the REST of the stream (the second accumulator was declared for
             # all of x[k:] but had only received x[k:n-tail] when the two were added)
             "tail": rng.choice([0, 0, 1, rng.randint(1, max(1, n - k - 1))]) if n - k >= 2 else 0,
-            "chunks_c": composition(rng, rng.randint(1, 30)), "reuse": rng.random() < 0.4}
+            "chunks_c": composition(rng, rng.randint(1, 30)), "reuse": rng.random() < 0.4,
+            **gen_tree(rng, n)}
+
+
+def gen_tree(rng, n) -> dict:
+    """More than two accumulators (one per node / beam / file) combined pairwise in some bracketing: a left fold, a
+    right fold, a balanced tree, anything.  `cuts` are the part boundaries, `merges` the positions (in the shrinking list
+    of partial sums) of the adjacent pair combined next, `flips` whether that pair is added as right + left."""
+    if n < 3 or rng.random() < 0.5:
+        return {}
+    m = rng.randint(3, min(n, 8))
+    cuts = sorted(rng.sample(range(1, n), m - 1))
+    style = rng.choice(["left", "right", "balanced", "random", "random"])
+    merges, size = [], m
+    while size > 1:
+        if style == "left":
+            j = 0
+        elif style == "right":
+            j = size - 2
+        elif style == "balanced":
+            j = None
+        else:
+            j = rng.randrange(size - 1)
+        if j is None:  # one balanced level: pairs (0,1), (2,3), ... -> positions 0, 1, 2, ... of the shrinking list
+            for q in range(size // 2):
+                merges.append(q)
+            size -= size // 2
+        else:
+            merges.append(j)
+            size -= 1
+    return {"cuts": cuts, "merges": merges, "flips": [rng.random() < 0.3 for _ in merges], "tree_empty": rng.random() < 0.15}
 
 
 def _fix(parts, total):
@@ -101,6 +131,11 @@ def fixup(sc):
     sc["chunks_a"] = _fix(sc["chunks_a"], sc["k"])
     sc["chunks_b"] = _fix(sc["chunks_b"], sc["n"] - sc["k"])
     sc["tail"] = max(0, min(int(sc.get("tail") or 0), sc["n"] - sc["k"] - 1)) if sc["k"] >= 1 else 0
+    if sc.get("cuts") is not None:
+        sc["cuts"] = sorted({c for c in sc["cuts"] if 1 <= c < sc["n"]})
+        if not sc["cuts"]:
+            for kk in ("cuts", "merges", "flips", "tree_empty"):
+                sc.pop(kk, None)
     return sc
 
 
@@ -336,3 +371,51 @@ def execute(sc, ctx) -> None:
         mc = readout(c, mode)
         check("merge-then-continue", mc, tr, mode, sc, ctx)
         ctx.log("merge-then-continue", k, t, [float(v) for v in mc["mean"]])
+
+    if sc.get("cuts"):
+        run_tree(sc, ctx, x, tr, mode)
+
+
+def run_tree(sc, ctx, x, tr, mode) -> None:
+    """Three to eight accumulators over consecutive parts of the stream, added pairwise in the scenario's bracketing."""
+    from sigpyproc.core.stats import ChannelStats
+
+    n = sc["n"]
+    edges = [0] + list(sc["cuts"]) + [n]
+    accs = []
+    for lo, hi in zip(edges[:-1], edges[1:]):
+        accs.append(push(x[lo:hi], composition_fixed(hi - lo, sc["dseed"] + lo), mode, hi - lo))
+    if sc.get("tree_empty"):
+        # an accumulator that was declared but never received data (a node whose share of the stream was empty)
+        accs.insert(sc["dseed"] % (len(accs) + 1), ChannelStats(x.shape[1], 0))
+        ctx.probe("tree-merge:never-pushed-accumulator")
+    merges = list(sc.get("merges") or [])
+    flips = list(sc.get("flips") or [])
+    depth = [0] * len(accs)
+    i = 0
+    while len(accs) > 1:
+        j = merges[i] if i < len(merges) else 0
+        j = max(0, min(int(j), len(accs) - 2))
+        flip = bool(flips[i]) if i < len(flips) else False
+        i += 1
+        try:
+            merged = (accs[j + 1] + accs[j]) if flip else (accs[j] + accs[j + 1])
+        except Exception as e:  # noqa: BLE001
+            raise Violation(f"C10/tree-merge/raised/{mode}", repr(e)[:300], {"api": "tree-merge", "cuts": sc["cuts"]}) from None
+        d = max(depth[j], depth[j + 1]) + 1
+        accs[j : j + 2] = [merged]
+        depth[j : j + 2] = [d]
+    if depth[0] >= 2:
+        ctx.probe("tree-merge:sum-of-sums")
+    ctx.probe(f"tree-merge:{min(len(edges) - 1, 4)}+parts")
+    if accs[0].nsamps != n:
+        raise Violation(f"C10/tree-merge/nsamps/{mode}", f"{accs[0].nsamps} != {n}", {"api": "tree-merge"})
+    got = readout(accs[0], mode)
+    check("tree-merge", got, tr, mode, sc, ctx)
+    ctx.log("tree-merge", len(edges) - 1, [float(v) for v in got["mean"]])
+
+
+def composition_fixed(n, salt) -> list:
+    """A deterministic chunking of n samples (no PRNG at execution time)."""
+    size = 1 + (salt % 7)
+    return blocks(n, size) if n > 0 else []
